@@ -14,7 +14,9 @@ func init() { core.Register("C10", core.Scenario{Run: Run, Replay: Replay}) }
 
 const rule = "stream scripts over raw HTTP/2 frames (20-400 ops, 1-6 concurrent streams, both directions) through h2.Config.Proxy: header blocks of " +
 	"0-40 KiB split by the sender at random points (HEADERS + CONTINUATION, also empty fragments), priorities, padding, bodies, trailers, empty END_STREAM " +
-	"DATA, RST_STREAM, PRIORITY, PUSH_PROMISE, HEADER_TABLE_SIZE changes, PING/GOAWAY/SETTINGS/ACK; receivers decode with their own hpack.Decoder; window " +
+	"DATA, RST_STREAM, PRIORITY, PUSH_PROMISE, HEADER_TABLE_SIZE changes (incl. episodes: raised to 8192-65536, taken up by the peer's raw encoder - size update at the " +
+	"start of its block, entries beyond 4096 octets, indexed references to them -, lowered to 4096/1024/0 with the peer's next block in flight, beginning with the old larger " +
+	"size update, before or after its ACK), PING/GOAWAY/SETTINGS/ACK; receivers decode with their own hpack.Decoder; window " +
 	"grants arrive late and in small steps; an epilogue opens every window and everything must have arrived by its barrier. Beside them, in child processes " +
 	"of their own: a concurrent family (bursts without barriers, every window open: a header block of 32-512 KiB - HEADERS, trailers, PUSH_PROMISE - followed by " +
 	"PING / SETTINGS / ACK / GOAWAY of the same endpoint while the other endpoint writes DATA, PINGs or a large block of its own, started by the arrival of the " +
